@@ -168,6 +168,18 @@ func VerifC03MinPower() {
 	n := vh.Uint32("N")
 	vh.Assume(n >= 50)
 	vh.Assume(n <= 100)
+	if vh.Bound("large_window", 0) == 1 && nv == 3 {
+		// a window of large totals (about 2*10^16 > 2^54): one dominant validator and
+		// two small ones, N = 99 — the region where an 18-digit decimal quotient
+		// cannot resolve one unit of voting power
+		vh.Assume(n == 99)
+		vh.Assume(e.st.power[0] >= 19800000000000000)
+		vh.Assume(e.st.power[0] <= 19800000000001000)
+		for i := 1; i < nv; i++ {
+			vh.Assume(e.st.power[i] >= 100000000000000)
+			vh.Assume(e.st.power[i] <= 100000000000010)
+		}
+	}
 	mp, err := e.k.ComputeMinPowerInTopN(e.ctx, active, n)
 	vh.Reach("after-minpower")
 	vh.Assert(err == nil, "C03.minpower.no-error")
